@@ -134,6 +134,11 @@ MUTANTS["C18"] = [
     M("ports_list_sorted_in_place", FE, "        port_len = [4 for x in self._machine_model.get_ports()]", "        self._machine_model.get_ports().sort()\n        port_len = [4 for x in self._machine_model.get_ports()]", "R2"),
     M("runtime_cache_entry_mutated", HW, "    def get_load_latency(self, reg_type):\n        \"\"\"Return load latency for given register type.\"\"\"\n", "    def get_load_latency(self, reg_type):\n        \"\"\"Return load latency for given register type.\"\"\"\n        self._data[\"load_latency\"].setdefault(reg_type, 0)\n", "R2"),
     M("parser_remembers_line", PX, "        instruction_form = InstructionForm(line=line, line_number=line_number)\n        result = None\n", "        instruction_form = InstructionForm(line=line, line_number=line_number)\n        self.last_line = line\n        result = None\n", "R3"),
+    M("a64_parser_sets_pyparsing_whitespace", PA, '        """Create parser for ARM AArch64 ISA."""\n', '        """Create parser for ARM AArch64 ISA."""\n        pp.ParserElement.setDefaultWhitespaceChars(" \\t")\n', "R4", "round 4: library-global default, applies to grammars built afterwards"),
+    M("x86_parser_inline_literals", PX, '        """Create parser for x86 AT&T ISA."""\n', '        """Create parser for x86 AT&T ISA."""\n        pp.ParserElement.inlineLiteralsUsing(pp.Suppress)\n', "R4"),
+    M("kernel_dg_chdir", KDG, "import time\n", "import time\n\nos.chdir(os.path.dirname(os.path.abspath(__file__)))\n", "R4", "module-level interpreter state"),
+    M("pyparsing_class_attribute_store", PX, '        """Create parser for x86 AT&T ISA."""\n', '        """Create parser for x86 AT&T ISA."""\n        pp.ParserElement.DEFAULT_WHITE_CHARS = " \\t"\n', "R4"),
+    M("packrat_is_fine", PX, '        """Create parser for x86 AT&T ISA."""\n', '        """Create parser for x86 AT&T ISA."""\n        pp.ParserElement.enablePackrat()\n', "SILENT", "memoisation only"),
     M("global_memo", CLI, "    isa = MachineModel.get_isa_for_arch(arch)\n    if isa == \"x86\":\n        return ParserX86ATT()", "    SUPPORTED_ARCHS.append(arch)\n    isa = MachineModel.get_isa_for_arch(arch)\n    if isa == \"x86\":\n        return ParserX86ATT()", "R2"),
 ]
 
@@ -775,6 +780,8 @@ MUTANTS["C03"] += [
 MUTANTS["C20"] += [
     M("bare_v_shape_empty", DBI, '"shape": operand[1:2] if operand[1:2] != "" else "d",', '"shape": operand[1:2] if operand[1:2] in "bhsd" else "d",', "R1",
       "seeded change (round 2): '' is a substring of every string, the documented default lane width d is lost"),
+    M("x86_memory_operand_is_one_global_dict", DBI, '    elif operand.startswith("m"):\n        return {\n            "class": "memory",\n            "base": "gpr" if "b" in operand else None,\n            "offset": "imd" if "o" in operand else None,\n            "index": "gpr" if "i" in operand else None,\n            "scale": 8 if "s" in operand else 1,\n        }\n    else:\n        raise ValueError("Parameter {} is not a valid operand code".format(operand))\n\n\n########################\n# HELPERS SANITY CHECK #', '    elif operand.startswith("m"):\n        mem = _X86_MEM\n        mem["base"] = "gpr" if "b" in operand else None\n        mem["offset"] = "imd" if "o" in operand else None\n        mem["index"] = "gpr" if "i" in operand else None\n        mem["scale"] = 8 if "s" in operand else 1\n        return mem\n    else:\n        raise ValueError("Parameter {} is not a valid operand code".format(operand))\n\n\n_X86_MEM = {"class": "memory", "base": None, "offset": None, "index": None, "scale": 1}\n\n\n########################\n# HELPERS SANITY CHECK #', "R6", "round 4: all memory operands are one object, the last decoding wins"),
+    M("x86_memory_operand_copied_template_is_fine", DBI, '    elif operand.startswith("m"):\n        return {\n            "class": "memory",\n            "base": "gpr" if "b" in operand else None,\n            "offset": "imd" if "o" in operand else None,\n            "index": "gpr" if "i" in operand else None,\n            "scale": 8 if "s" in operand else 1,\n        }\n    else:\n        raise ValueError("Parameter {} is not a valid operand code".format(operand))\n\n\n########################\n# HELPERS SANITY CHECK #', '    elif operand.startswith("m"):\n        mem = dict(_X86_MEM)\n        mem["base"] = "gpr" if "b" in operand else None\n        mem["offset"] = "imd" if "o" in operand else None\n        mem["index"] = "gpr" if "i" in operand else None\n        mem["scale"] = 8 if "s" in operand else 1\n        return mem\n    else:\n        raise ValueError("Parameter {} is not a valid operand code".format(operand))\n\n\n_X86_MEM = {"class": "memory", "base": None, "offset": None, "index": None, "scale": 1}\n\n\n########################\n# HELPERS SANITY CHECK #', "SILENT", "a copy of the template is edited"),
     M("shape_default_by_or_is_fine", DBI, '"shape": operand[1:2] if operand[1:2] != "" else "d",', '"shape": operand[1:2] or "d",', "SILENT", "behaviour-preserving"),
     M("scalar_codes_as_tuple_is_fine", DBI, 'elif operand in "wxbhsdq":', 'elif operand in ("w", "x", "b", "h", "s", "d", "q"):', "SILENT", "behaviour-preserving on the documented codes"),
     M("x86_gpr_by_equality_is_fine", DBI, 'if operand.startswith("r"):', 'if operand == "r":', "SILENT", "the documented code is 'r'"),
@@ -872,4 +879,22 @@ MUTANTS["C12"] += [
     M("numbered_index_helper_correct_is_fine", PX, [_NUMREG_OLD, "\n    def is_basic_gpr(self, register):"],
       ['        idx_a = self._numbered_gpr_index(reg_a_name)\n        if idx_a is not None and idx_a == self._numbered_gpr_index(reg_b_name):\n            return True\n', _NUMREG_HELPER], "SILENT",
       "the same test through a helper"),
+]
+
+MUTANTS["C09"] += [
+    M("first_operand_labels_before_memory", PX, '        operand_first = pp.Group(\n            self.register ^ immediate ^ memory ^ identifier ^ numeric_identifier\n        )\n        operand_rest = pp.Group(self.register ^ immediate ^ memory)\n', '        operand = self.register ^ immediate ^ memory\n        operand_rest = pp.Group(operand)\n        operand_first = pp.Group(identifier ^ numeric_identifier ^ operand)\n', "R8", "round 4 seeded change: a bare decimal displacement ties with the numeric label, the first listed wins"),
+    M("first_operand_memory_last", PX, "self.register ^ immediate ^ memory ^ identifier ^ numeric_identifier", "self.register ^ immediate ^ identifier ^ numeric_identifier ^ memory", "R8"),
+    M("offset_decimal_before_hex", PX, "        offset = pp.Group(hex_number | decimal_number | identifier).setResultsName(", "        offset = pp.Group(decimal_number | hex_number | identifier).setResultsName(", "R8", "decimal commits on the 0 of 0x10"),
+    M("offset_identifier_first", PX, "        offset = pp.Group(hex_number | decimal_number | identifier).setResultsName(", "        offset = pp.Group(identifier | hex_number | decimal_number).setResultsName(", "R8", "-8 is an identifier too"),
+    M("bare_displacement_decimal_first", PX, '            | (hex_number | pp.Word(pp.nums)).setResultsName("offset")\n', '            | (pp.Word(pp.nums) | hex_number).setResultsName("offset")\n', "R8"),
+    M("first_operand_untied_reorder_is_fine", PX, "self.register ^ immediate ^ memory ^ identifier ^ numeric_identifier", "immediate ^ self.register ^ memory ^ identifier ^ numeric_identifier", "SILENT", "register and immediate never tie with anything"),
+    M("first_operand_shared_prefix_is_fine", PX, '        operand_first = pp.Group(\n            self.register ^ immediate ^ memory ^ identifier ^ numeric_identifier\n        )\n        operand_rest = pp.Group(self.register ^ immediate ^ memory)\n', '        operand = self.register ^ immediate ^ memory\n        operand_rest = pp.Group(operand)\n        operand_first = pp.Group(operand ^ identifier ^ numeric_identifier)\n', "SILENT", "the shared alternation keeps memory before the label forms"),
+]
+
+MUTANTS["C10"] += [
+    M("a64_first_operand_identifier_first", PA, "register ^ (prefetch_op | immediate) ^ memory ^ arith_immediate ^ identifier", "identifier ^ register ^ (prefetch_op | immediate) ^ memory ^ arith_immediate", "R13", "x0 is a valid label name: the first listed wins the tie"),
+    M("a64_rest_operand_identifier_first", PA, "(register ^ condition ^ immediate ^ memory ^ arith_immediate) | identifier", "identifier | (register ^ condition ^ immediate ^ memory ^ arith_immediate)", "R13"),
+    M("a64_condition_after_immediate", PA, "(register ^ condition ^ immediate ^ memory ^ arith_immediate) | identifier", "(register ^ immediate ^ condition ^ memory ^ arith_immediate) | identifier", "R13", "eq / AL tie with an immediate label"),
+    M("a64_offset_before_register_index", PA, 'pp.Optional(register_index ^ (immediate ^ arith_immediate).setResultsName("offset"))', 'pp.Optional((immediate ^ arith_immediate).setResultsName("offset") ^ register_index)', "R13"),
+    M("a64_memory_moved_is_fine", PA, "register ^ (prefetch_op | immediate) ^ memory ^ arith_immediate ^ identifier", "register ^ memory ^ (prefetch_op | immediate) ^ arith_immediate ^ identifier", "SILENT", "memory ties with nothing"),
 ]
